@@ -96,8 +96,10 @@ PROPS["C02"] = {
     "lean_modules": ["BurrowVerif.Props.C02"],
     "props_files": ["BurrowVerif/Props/C02.lean"],
     "anchors": ["core/internal/storage/inmemory.go"],
-    "streams": [dict(_STORAGE_STREAM, keys={"win", "kept"})],
-    "rule": _STORAGE_RULE,
+    "streams": [dict(_STORAGE_STREAM, keys={"win", "kept", "iv", "md"}),
+                {"name": "conc", "keys": None, "trivial": r"^ok$", "hist_keys": [],
+                 "scale": {"quick": 1, "thorough": 4}, "seeds": {"quick": 1, "thorough": 2}}],
+    "rule": _STORAGE_RULE + " Stream conc (shared with C08/C09): commits travel through the module's REAL main loop and worker pool (log positions from 0 upwards), so what the dispatcher does to a request before a worker sees it is part of what is compared.",
     "trusted": [
         "container/ring is modelled as a fixed circular array addressed relative to the pointer (Model/Ring.lean), validated differentially",
         "int64 overflow of minDistance*1000 and of timestamp differences is not modelled",
@@ -205,7 +207,7 @@ PROPS["C09"] = {
     "lean_modules": ["BurrowVerif.Props.C09"],
     "props_files": ["BurrowVerif/Props/C09.lean"],
     "anchors": ["core/internal/storage/inmemory.go"],
-    "streams": [dict(_STORAGE_STREAM, keys={"list", "offs", "win", "lag", "own", "bro", "gs", "parts", "count"}),
+    "streams": [dict(_STORAGE_STREAM, keys={"list", "offs", "win", "lag", "own", "bro", "gs", "parts", "count", "exp", "iv", "md"}),
                 {"name": "conc", "keys": None, "trivial": r"^ok$", "hist_keys": [],
                  "scale": {"quick": 1, "thorough": 4}, "seeds": {"quick": 1, "thorough": 2}},
                 dict(_CLUSTER_STREAM, keys={"del", "asked"})],
@@ -274,6 +276,10 @@ _HTTP_RULE = ("stream http: the real httpserver router (real Configure, in-proce
               "documented JSON (not Burrow's types) and compared field by field with the model; Prometheus text is parsed into series. Non-trivial = a 200 answer with a payload or a non-empty scrape.")
 _HTTP_STREAM = {"name": "http", "retry_transient": True, "trivial": r"^(ok|code=(404|tsr|405|301|307).*|code=200 series=-)$", "hist_keys": ["code", "kind"],
                 "scale": {"quick": 1, "thorough": 10}, "seeds": {"quick": 1, "thorough": 3}}
+# C04 also judges the whole HTTP path: status and lag payloads before and after a /metrics scrape within the cache lifetime
+PROPS["C04"]["streams"].append(dict(_HTTP_STREAM, keys=None, spec_tags=[]))
+PROPS["C04"]["rule"] += (" Stream http (shared with C16/C17): the real HTTP server on the real evaluator and storage; status and lag payloads are compared whole, also after a /metrics scrape "
+                         "inside the cache lifetime (what one reader does to the cached evaluation is seen by the next). Stream evalcache: two requests for one group in flight together may ask for different views (S cqdup): each must get the view it asked for.")
 PROPS["C16"] = {
     "lean_modules": ["BurrowVerif.Props.C16"],
     "props_files": ["BurrowVerif/Props/C16.lean"],
